@@ -12,6 +12,14 @@
      "legacy117"  clients 1.17 - 1.20.2 (755..764)   same, but forced packs are never auto-declined
      "modern"     clients 1.20.3+ (>= 765)           one queue per pack id
 
+   Faults: a response call may run while a write fails (op.fail): "prompt" = the client
+   connection refuses the packets written during the call, "report" = the first write to the
+   backend during the call fails.  Attempted writes are what is recorded; the requirements on
+   them stay the same (in particular the client's response to a backend pack must still be
+   handed to the backend), only the "handled" result is then not constrained (the call
+   returns an error, which the session handler treats as handled).  A faulted call ends its
+   history.
+
    The module has two layers.
    * LegacyStep / ModernStep are THE specification: relations between the state before
      a call, the call, what the handler emitted, and the state after.  They only demand
@@ -85,7 +93,7 @@ LegacyStep(mode, q, decl, op, out, q2, decl2) ==
                  ELSE LET head == Pack(q[1])
                           own == IF head.origin = "backend" THEN 1 ELSE 0 IN
                       \* reported to the backend iff the answered pack came from the backend
-                      /\ out.handled = (head.origin = "proxy")
+                      /\ (op.fail = "" => out.handled = (head.origin = "proxy"))
                       /\ IF Intermediate(op.st)
                            THEN q2 = q /\ out.prompts = <<>> /\ ReportsOK(out.reports, own, op.st, 0)
                            ELSE \E k \in 0..(Len(q) - 1) :
@@ -107,7 +115,7 @@ ModernStep(qm, op, out, qm2) ==
             IF qm[i] = <<>>
               THEN qm2 = qm /\ out.prompts = <<>>          \* untracked id: only completion
               ELSE LET head == Pack(qm[i][1]) IN
-                   /\ out.handled = (head.origin = "proxy")
+                   /\ (op.fail = "" => out.handled = (head.origin = "proxy"))
                    /\ out.reports = IF head.origin = "backend" THEN <<[id |-> i, st |-> op.st]>> ELSE <<>>
                    /\ IF Intermediate(op.st)
                         THEN qm2 = qm /\ out.prompts = <<>>
@@ -135,14 +143,15 @@ VARIABLES ver,       \* the client's protocol number
           h          \* the calls so far
 vars == <<ver, mode, q, qm, prev, decl, open, nAuto, last, h>>
 
-QueueOps == {[op |-> "queue", pack |-> n, sid |-> 0, st |-> ""] : n \in PackNames}
+Faults == {"", "prompt", "report"}
+QueueOps == {[op |-> "queue", pack |-> n, sid |-> 0, st |-> "", fail |-> ""] : n \in PackNames}
 RespOps == IF mode = "modern"
-             THEN {[op |-> "response", pack |-> "", sid |-> i, st |-> s] : i \in Ids, s \in Statuses}
-             ELSE {[op |-> "response", pack |-> "", sid |-> 0, st |-> s] : s \in Statuses}
+             THEN {[op |-> "response", pack |-> "", sid |-> i, st |-> s, fail |-> f] : i \in Ids, s \in Statuses, f \in Faults}
+             ELSE {[op |-> "response", pack |-> "", sid |-> 0, st |-> s, fail |-> f] : s \in Statuses, f \in Faults}
 OtherOps == IF mode = "modern"
-              THEN {[op |-> "remove", pack |-> "", sid |-> i, st |-> ""] : i \in Ids}
-                   \cup {[op |-> "clear", pack |-> "", sid |-> 0, st |-> ""]}
-              ELSE {[op |-> "clear", pack |-> "", sid |-> 0, st |-> ""]}
+              THEN {[op |-> "remove", pack |-> "", sid |-> i, st |-> "", fail |-> ""] : i \in Ids}
+                   \cup {[op |-> "clear", pack |-> "", sid |-> 0, st |-> "", fail |-> ""]}
+              ELSE {[op |-> "clear", pack |-> "", sid |-> 0, st |-> "", fail |-> ""]}
 Ops == QueueOps \cup RespOps \cup OtherOps
 
 Rep(i, s) == [id |-> i, st |-> s]
@@ -212,10 +221,11 @@ ModernApply(op) ==
 
 Init == /\ ver \in Versions /\ mode = ModeOf(ver) /\ q = <<>> /\ qm = [i \in Ids |-> <<>>] /\ prev = InitPrev /\ decl = FALSE
         /\ open = 0 /\ nAuto = 0 /\ h = <<>>
-        /\ last = [op |-> [op |-> "clear", pack |-> "", sid |-> 0, st |-> ""], out |-> NoOut]
+        /\ last = [op |-> [op |-> "clear", pack |-> "", sid |-> 0, st |-> "", fail |-> ""], out |-> NoOut]
 
 Next == /\ Len(h) < MaxLen /\ mode' = mode /\ ver' = ver
         /\ \E op \in Ops :
+              /\ (op.fail = "" \/ Len(h) = MaxLen - 1)       \* a faulted call ends the history
               /\ IF mode = "modern"
                    THEN ModernApply(op) /\ UNCHANGED <<q, prev, nAuto, open>>
                    ELSE LegacyApply(op) /\ UNCHANGED qm
